@@ -78,7 +78,7 @@ func (k *PrivateKey) signatureAlgorithm() (jose.SignatureAlgorithm, error) {
 
 // Validate let's us know if the private key was generated or parsed correctly.
 func (k *PrivateKey) Validate() error {
-	if k.jwk == nil {
+	if k == nil || k.jwk == nil {
 		return errors.New("key not set")
 	}
 	if k.ID() == "" {
